@@ -8,6 +8,7 @@ import SpoxModel.Props.C02
 #print axioms C02.reserve_clash_raises
 #print axioms C02.update_keeps_inv
 #print axioms C02.names_unique
+#print axioms C02.compile_names_unique
 #print axioms C02.clash_raises
 #print axioms C02.checkStructural_sound
 #print axioms C02.generated_to_model_safe
